@@ -15,12 +15,11 @@ def showOpt (o : Option QuerySplit.Pair) : String :=
 
 /-- every accessor of `Query` for one name, in the harness's format -/
 def queryField (ps : List QuerySplit.Pair) (name : Bytes) : Option String :=
-  match QuerySplit.getAll ps name with
-  | none => none
-  | some all =>
-    let get := if all.length = 1 then all.head? else none
+  match QuerySplit.getAll ps name, QuerySplit.get ps name, QuerySplit.getFirst ps name, QuerySplit.getLast ps name with
+  | some all, some get, some first, some last =>
     let vals := fun (l : List QuerySplit.Pair) => ";".intercalate (l.map fun p => hexOfBytes p.2)
-    some s!"{hexOfBytes name}:{showOpt get}:{showOpt all.head?}:{showOpt all.getLast?}:[{vals all}]:[{vals all.reverse}]"
+    some s!"{hexOfBytes name}:{showOpt get}:{showOpt first}:{showOpt last}:[{vals all}]:[{vals all.reverse}]"
+  | _, _, _, _ => none
 
 def handle : List String → Option String
   -- query <hex of the query string | -> : `parse::query`, then get / get_first / get_last / get_all (both directions)
